@@ -31,6 +31,9 @@ def main():
         if what == "setup":
             import setup
             return setup.main()
+        if what == "selftest":
+            import selftest
+            return selftest.main()
         import registry
         fn = registry.CHECKS.get(what)
         if fn is None:
